@@ -64,7 +64,7 @@ pub fn by_id(id: &str) -> Option<&'static HistProp> {
 pub fn hist_fuzz_subs(hp: &'static HistProp) -> Vec<crate::fuzz::FuzzSub> {
     (hp.profiles)()
         .into_iter()
-        .map(|(name, profile, _, _)| crate::fuzz::sub(name, case_strategy(&profile), move |c: &HistCase| run_case_for(hp, c)))
+        .map(|(name, profile, _, _)| crate::fuzz::sub(name, move |data: &[u8]| crate::hist::fuzzgen::case(&profile, data), move |c: &HistCase| run_case_for(hp, c)))
         .collect()
 }
 
